@@ -34,7 +34,7 @@ ASSUMPTIONS = [
     "mtimes 1980-2037 (earlier, several IANA zones have second-granular offsets that ISO 8601 cannot carry)",
     "libc's tz database is the authority for the offset in force at an instant",
 ]
-BUDGET = {"quick": (300, 4), "thorough": (10000, 16)}
+BUDGET = {"quick": (300, 4), "thorough": (200000, 16)}
 REQUIRED = ["now_dst/file_std", "now_std/file_dst", "now_dst/file_dst", "now_std/file_std", "size0", "fixed_offset", "iana", "big_file", "near_switch", "within_hour_after_switch"]
 
 IANA = ["Europe/Berlin", "America/New_York", "America/Los_Angeles", "Australia/Sydney", "Pacific/Auckland", "America/Sao_Paulo",
